@@ -76,7 +76,9 @@ def faults(g):
     add("nscall-attr", '<%%self:f a="${%s}">x</%%self:f>' % BAD)
     add("def-multiline-tag", '<%def\n' + "\n" * k + '  name="d9(a b)">x</%def>', dline=1 + k, line=False)
     add("unterminated-expr", "${x + 1", pos=True)
+    add("unterminated-expr-multiline", "${x + 'a'\n  + {'k': 1,  # c\n 'z': (2", pos=True)
     add("unterminated-block", "<% x = 1 ", pos=True)
+    add("unterminated-block-multiline", "<% x = 'a'\ny = \"b\"  # c\nz = 1 ", pos=True)
     add("unterminated-filter", "${x | h", pos=False, line=False)
     add("unknown-tag", "<%foo9>x</%foo9>")
     add("unknown-tag-selfclosed", '<%bar9 a="1"/>')
